@@ -49,13 +49,14 @@ def check(tier):
     rep.assumptions = ['overflow checks ON (the dev/test profile): every arithmetic assert terminator in the MIR is an obligation']
     load_program(fresh=True)
     rnd = random.Random(seed() * 7919 + 17)
-    had = [(c06.MOD, 'hadamard_scen', dict(n=n, which=w)) for n, w in ((1, 'hadamard_div'), (2, 'hadamard_div'), (3, 'hadamard_div'), (3, 'hadamard_mul'))]
+    had = [(c06.MOD, 'hadamard_scen', dict(n=n, which=w, mul_contract=True)) for n, w in ((1, 'hadamard_div'), (2, 'hadamard_div'), (3, 'hadamard_div'), (3, 'hadamard_mul'))]
     jobs = c07.dec_jobs(tier, rnd) + c06.parse_jobs(tier) + [j for j in c02.jobs_for(tier)] + had
     results = run_jobs(jobs, workers=NCPU, order_seed=0)
     # arithmetic fact for the production sizes
     assert 1024 * (6144 ** 2 + 12159 ** 2) < 2 ** 63
     rep.oblige(1)
     npan = 0
+    sig_accept = {}; narrow = []
     for job, r in zip(jobs, results):
         if r.get('error'):
             rep.oblige(1, ok=False); rep.note_inconclusive('%s %s: %s' % (job[1], job[2].get('tag') or job[2], r['error'])); continue
@@ -65,6 +66,14 @@ def check(tier):
         # only the panic obligations count here; functional findings belong to C02/C06/C07
         rep.oblige(max(r['obligations'] - r['violable'], 0)); rep.oblige(len(pan), ok=False)
         rep.parts.setdefault('scenarios', []).append({'scenario': r.get('tag'), 'paths': r['paths'], 'panic_obligations_violable': len(pan), 'wall_s': round(r['wall_s'], 1)})
+        if job[1] == 'parse_scen' and r.get('what') == 'Signature':
+            for smp in r.get('samples', []):
+                if smp.get('accepted_input') is not None:
+                    sig_accept.setdefault(r['N'], []).append((r['L'], smp['accepted_input']))
+        if job[1] == 'verify_scen':
+            for b in r.get('bad', []):
+                if b.get('width'):
+                    narrow.append((r.get('tag'), b['kind']))
         for p in pan:
             npan += 1
             if job[1] == 'decompress_scen':
@@ -93,5 +102,95 @@ def check(tier):
         if job[1] == 'decompress_scen':
             for s in r.get('samples', [])[:1]:
                 rep.sample({'scenario': r.get('tag'), 'discharged': 'all %d assert/library-panic obligations on %d paths' % (r['obligations'], r['paths'])})
+    if narrow:
+        heavy_signature_replay(rep, narrow, sig_accept)
+    felt_mul_panic_lemma(rep)
     # verify never panics on a decode failure or success natively either: a differential battery (cheap, replay only)
     return rep.finish()
+
+
+def heavy_signature_replay(rep, narrow, sig_accept):
+    """verify sums squares in an integer type that cannot hold 1024 terms of 12159^2 (found on the toy degrees by the width obligation).
+    Whether that is a reachable overflow panic depends on how heavy a decodable signature can be, i.e. on every length
+    Signature::from_bytes accepts for each N (taken from the parse scenarios' accepting paths): the heaviest vector that fits each such
+    length is encoded and sent through the real from_bytes + verify."""
+    from .. import spec
+    shown = False
+    for N in (512, 1024):
+        cands = sig_accept.get(N, [])
+        for L, sample in sorted(cands, key=lambda x: -x[0]):
+            room = 8 * (L - 41)
+            k = max(0, min(N, (room - 9 * N) // 94))
+            for mag in (12159, 6144):
+                v = [(mag if i % 2 else -mag) for i in range(k)] + [0] * (N - k)
+                body = spec.compress(v, L - 41)
+                if body is None:
+                    continue
+                sig = bytes(sample[:41]) + body
+                pk = spec.pk_bytes([1] + [0] * (N - 1), N)
+                req = ['verify', N, b'verif'.hex(), sig.hex(), pk.hex()]
+                dev, rel = replay.both(req); rep.replayed += 1
+                if str(dev).startswith('PANIC') or str(rel).startswith('PANIC'):
+                    rep.oblige(1, ok=False)
+                    rep.violation('verify:panic', 'verify::<%d> panics on a %d-byte signature that Signature::<%d>::from_bytes accepts (%d coefficients of magnitude %d): %s (%s)'
+                                  % (N, L, N, k, mag, dev if str(dev).startswith('PANIC') else rel, narrow[0][1]),
+                                  {'replay_request': ['verify', N, 'verif', sig.hex()[:90] + '...', pk.hex()[:40] + '...'], 'signature_length': L, 'dev': str(dev)[:120], 'release': str(rel)[:120]})
+                    shown = True; break
+            if shown: break
+        if shown: break
+    if not shown:
+        # no decodable signature is heavy enough: the narrow type is a C02 matter (wrong decision), not a panic
+        rep.parts['narrow_accumulator'] = '%s; no accepted signature length carries enough weight to overflow it (lengths tried: %s)' % (narrow[0][1], {n: sorted(set(l for l, _ in c)) for n, c in sig_accept.items()})
+
+
+def felt_mul_panic_lemma(rep):
+    """verify and SecretKey::from_bytes multiply field elements pointwise (hadamard_mul / hadamard_div): <Felt as Mul>::mul and
+    Felt::multiply must not panic for any pair of canonical operands. Real MIR with the product as a cut point, decided by cvc5's
+    integer encoding (a division-free reduction is out of reach of bit-blasting); a violable obligation is turned into an operand
+    pair and replayed through verify itself (s2 = x, h = y constant polynomials: every NTT slot multiplies x by y)."""
+    from . import c12_m
+    from .. import spec
+    Qv = 12289
+    for which in ('mul', 'multiply'):
+        try:
+            r = c12_m.mul_scen(which)
+        except Exception as e:
+            rep.parts['felt_%s_panic_lemma' % which] = 'not evaluated: %s: %s' % (type(e).__name__, str(e)[:120]); continue
+        rep.states += r.get('paths', 0); rep.transitions += r.get('steps', 0); rep.queries += r.get('queries', 0); rep.solver_s += r.get('solver_s', 0.0)
+        pans = r.get('panics', [])
+        rep.sample({'engine': 'M', 'target': r.get('key'), 'panic_obligations_violable': len(pans), 'paths': r.get('paths')})
+        if r.get('verdict') in ('absent',):
+            continue
+        if not pans:
+            rep.oblige(max(r.get('paths', 1), 1)); continue
+        rep.oblige(1, ok=False)
+        shown = False
+        for pnc in pans:
+            pval = (pnc.get('model') or {}).get('prod_1')
+            pairs = [(x, pval // x) for x in range(1, Qv) if pval and pval % x == 0 and pval // x < Qv][:4] if pval else []
+            mm_ = pnc.get('model') or {}
+            if pval and mm_.get('a') and mm_.get('b') and mm_['a'] * mm_['b'] == pval:
+                pairs = [(mm_['a'], mm_['b'])] + pairs          # the solver's own operands (model with the product tied to them)
+            for x, y in pairs:
+                for N in (512, 1024):
+                    for a_, b_ in ((x, y), (y, x)):
+                        s2 = [a_ if a_ <= 6144 else a_ - Qv] + [0] * (N - 1)
+                        try:
+                            sig = spec.sig_bytes(bytes(40), s2, N)
+                        except Exception:
+                            continue
+                        if sig is None:
+                            continue
+                        pk = spec.pk_bytes([b_] + [0] * (N - 1), N)
+                        req = ['verify', N, b'verif'.hex(), sig.hex(), pk.hex()]
+                        dev, rel = replay.both(req); rep.replayed += 1
+                        if str(dev).startswith('PANIC') or str(rel).startswith('PANIC'):
+                            rep.violation('verify:panic', 'verify::<%d> panics on a well-formed signature (s2 = %d) and public key (h = %d): %s (M obligation in %s: %s)'
+                                          % (N, s2[0], b_, dev if str(dev).startswith('PANIC') else rel, r.get('key'), pnc['msg']),
+                                          {'replay_request': ['verify', N, 'verif', sig.hex()[:60] + '...', pk.hex()[:60] + '...'], 'dev': str(dev)[:100], 'release': str(rel)[:100]})
+                            shown = True; break
+                    if shown: break
+                if shown: break
+            if shown: break
+        if not shown:
+            rep.note_inconclusive('a panic obligation in %s is violable for the solver (%s) but no operand pair reproduces it through verify natively' % (r.get('key'), pans[0]['msg']))
